@@ -380,7 +380,7 @@ static uint32_t pickValue(Rng& rng, unsigned w, unsigned* kind) {
 struct Field { unsigned w; uint32_t v; };
 
 template <unsigned CAP>
-static void runFields(Rng& rng, const std::vector<Field>& fields, const char* kind);
+static void runFields(Rng& rng, const std::vector<Field>& fields, const char* kind, unsigned startCursor = 0);
 
 template <unsigned CAP>
 static void streamCase(Rng& rng) {
@@ -396,6 +396,19 @@ static void streamCase(Rng& rng) {
 		total += w;
 	}
 	runFields<CAP>(rng, fields, "cases_field_sequences");
+	// the same kind of sequence written by a stream that is opened at a non-zero cursor on a used buffer
+	if (CAP > 1) {
+		const unsigned start = 1 + rng.below(CAP - 1);
+		std::vector<Field> f2;
+		unsigned tot = start;
+		while (tot < CAP && f2.size() < 6) {
+			const unsigned room = CAP - tot;
+			const unsigned w = 1 + rng.below(room < 32 ? room : 32);
+			unsigned k; f2.push_back({w, pickValue(rng, w, &k)});
+			tot += w;
+		}
+		if (!f2.empty()) runFields<CAP>(rng, f2, "cases_field_sequences_from_start_cursor", start);
+	}
 }
 
 // every (start offset 0..7, width 1..32) that fits x {0, all-ones, every walking 1, every walking 0}
@@ -417,7 +430,7 @@ static void streamSingleExhaustive(Rng& rng) {
 }
 
 template <unsigned CAP>
-static void runFields(Rng& rng, const std::vector<Field>& fields, const char* kind) {
+static void runFields(Rng& rng, const std::vector<Field>& fields, const char* kind, unsigned startCursor) {
 	using Buf = ffsm2::detail::StreamBufferT<CAP>;
 	static const auto wt = StreamOps<CAP>::wtab(std::make_index_sequence<32>{});
 	static const auto rt = StreamOps<CAP>::rtab(std::make_index_sequence<32>{});
@@ -432,9 +445,9 @@ static void runFields(Rng& rng, const std::vector<Field>& fields, const char* ki
 	memset(static_cast<void*>(&g.buf), 0xFF, sizeof g.buf);
 
 	RefBits ref(BYTES * 8);
-	ffsm2::detail::BitWriteStreamT<CAP> ws{g.buf};
-	unsigned at = 0;
-	if (ws.cursor() != 0) viol("stream.write-cursor-initial", fmt("BitWriteStreamT<%u>: initial cursor %u", CAP, unsigned(ws.cursor())));
+	ffsm2::detail::BitWriteStreamT<CAP> ws{g.buf, static_cast<ffsm2::Long>(startCursor)};
+	unsigned at = startCursor;
+	if (ws.cursor() != startCursor) viol("stream.write-cursor-initial", fmt("BitWriteStreamT<%u>: initial cursor %u, opened at %u", CAP, unsigned(ws.cursor()), startCursor));
 	for (unsigned j = 0; j < BYTES; ++j)
 		if (g.buf.data()[j] != 0) { viol("stream.not-cleared-on-open", fmt("BitWriteStreamT<%u>: buffer byte %u = 0x%02x after opening the write stream", CAP, j, g.buf.data()[j])); break; }
 
@@ -457,8 +470,9 @@ static void runFields(Rng& rng, const std::vector<Field>& fields, const char* ki
 	for (unsigned j = 0; j < 16; ++j)
 		if (g.pre[j] != 0xA5 || g.post[j] != 0x5A) { viol("stream.write-outside-buffer", fmt("BitWriteStreamT<%u>: canary byte damaged", CAP)); break; }
 
-	ffsm2::detail::BitReadStreamT<CAP> rs{g.buf};
-	unsigned rat = 0;
+	ffsm2::detail::BitReadStreamT<CAP> rs{g.buf, static_cast<ffsm2::Long>(startCursor)};
+	unsigned rat = startCursor;
+	if (rs.cursor() != startCursor) viol("stream.read-cursor-initial", fmt("BitReadStreamT<%u>: initial cursor %u, opened at %u", CAP, unsigned(rs.cursor()), startCursor));
 	for (const Field& f : fields) {
 		const uint32_t v = rt[f.w - 1](rs);
 		rat += f.w;
